@@ -410,7 +410,9 @@ func (b *BinaryExpr) SQL() string {
 
 func (u *UnaryExpr) SQL() string {
 	p := exprPrec(u)
-	return string(u.Op) + strOpt(u.Op == OpNot, " ") + paren(p, u.Expr)
+	e := paren(p, u.Expr)
+	// "- -x" must not be printed as "--x", which is a comment.
+	return string(u.Op) + strOpt(u.Op == OpNot || u.Op == OpMinus && strings.HasPrefix(e, "-"), " ") + e
 }
 
 func (i *InExpr) SQL() string {
@@ -452,7 +454,9 @@ func (b *BetweenExpr) SQL() string {
 
 func (s *SelectorExpr) SQL() string {
 	p := exprPrec(s)
-	return paren(p, s.Expr) + "." + s.Ident.SQL()
+	// "1 .x" must not be printed as "1.x", which is a floating point literal glued to an identifier.
+	_, isInt := s.Expr.(*IntLiteral)
+	return paren(p, s.Expr) + strOpt(isInt, " ") + "." + s.Ident.SQL()
 }
 
 func (i *IndexExpr) SQL() string {
